@@ -1,0 +1,110 @@
+//! Verification hook H5 (`--cfg ldk_verif` only): scheduling points and injected I/O errors in
+//! front of the file-system calls of [`crate::fs_store`], and the two-phase (`prepare` /
+//! `execute`) form of the asynchronous write and remove paths. Compiled out entirely without the
+//! cfg.
+
+use std::cell::RefCell;
+use std::io;
+use std::time::Duration;
+
+pub use crate::fs_store::common::VerifPrepared;
+
+/// One injected error: the `nth` (0-based, counted per `site` over the whole run) arrival at the
+/// fault point named `site` returns an [`io::Error`] of `kind` instead of proceeding.
+#[derive(Clone, Debug, PartialEq, Eq)]
+pub struct Fault {
+	/// Name of the fault point, i.e., the argument of the `fs_point` call.
+	pub site: &'static str,
+	/// Which arrival at that site fails.
+	pub nth: u32,
+	/// Kind of the returned error.
+	pub kind: io::ErrorKind,
+}
+
+/// The marker every injected error carries as its message.
+pub const INJECTED: &str = "ldk_verif injected fs error";
+
+/// All fault point names, in source order.
+pub const SITES: &[&str] = &[
+	"read.open",
+	"read.read_to_end",
+	"write.metadata",
+	"write.create_dir_all",
+	"write.create_tmp",
+	"write.write_all",
+	"write.set_times",
+	"write.sync_tmp",
+	"write.rename",
+	"write.open_dir",
+	"write.sync_dir",
+	"remove.is_file",
+	"remove.remove_file",
+	"remove.open_dir",
+	"remove.sync_dir",
+	"list.exists",
+	"list.read_dir",
+	"list.entry",
+];
+
+#[derive(Default)]
+struct State {
+	plan: Vec<Fault>,
+	hits: Vec<(&'static str, u32)>,
+	fired: Vec<Fault>,
+	points: u64,
+}
+
+// A plain (OS) thread local: all shuttle threads of one execution run on the OS thread that
+// called the shuttle runner, so this is one plan per execution, shared by its shuttle threads.
+thread_local! {
+	static STATE: RefCell<State> = RefCell::new(State::default());
+}
+
+/// Installs the fault plan for the execution running on this OS thread and resets all counters.
+pub fn install(plan: Vec<Fault>) {
+	STATE.with(|s| *s.borrow_mut() = State { plan, ..State::default() });
+}
+
+/// Returns the faults that fired since [`install`] (in firing order) and the number of fault
+/// points passed.
+pub fn report() -> (Vec<Fault>, u64) {
+	STATE.with(|s| {
+		let s = s.borrow();
+		(s.fired.clone(), s.points)
+	})
+}
+
+/// A scheduling point without error injection (in front of best-effort clean-up calls, and
+/// between the lock-map clean-up and the release of the caller's lock reference).
+pub(crate) fn fs_yield() {
+	shuttle::thread::sleep(Duration::ZERO);
+}
+
+/// A scheduling point, then possibly an injected error. Placed in front of a file-system call.
+pub(crate) fn fs_point(site: &'static str) -> io::Result<()> {
+	debug_assert!(SITES.contains(&site));
+	shuttle::thread::sleep(Duration::ZERO);
+	let kind = STATE.with(|s| {
+		let mut s = s.borrow_mut();
+		s.points += 1;
+		let n = match s.hits.iter_mut().find(|(name, _)| *name == site) {
+			Some((_, n)) => {
+				*n += 1;
+				*n - 1
+			},
+			None => {
+				s.hits.push((site, 1));
+				0
+			},
+		};
+		let hit = s.plan.iter().find(|f| f.site == site && f.nth == n).cloned();
+		if let Some(f) = hit.as_ref() {
+			s.fired.push(f.clone());
+		}
+		hit.map(|f| f.kind)
+	});
+	match kind {
+		Some(kind) => Err(io::Error::new(kind, INJECTED)),
+		None => Ok(()),
+	}
+}
